@@ -53,6 +53,7 @@ type Spec struct {
 	Consts []ConstSpec `json:"consts"`
 	Preds  []PredSpec  `json:"preds"`
 	Skels  []SkelSpec  `json:"skels"`
+	ExtSpec            // additive kinds, see ext.go
 }
 
 var fset = token.NewFileSet()
@@ -257,6 +258,15 @@ func leanStr(s string) string {
 	return strconv.Quote(s) // Go quoting of printable ASCII is Lean-compatible
 }
 
+// leanVar renames Go identifiers that are Lean keywords (e.g. the loop variable `prefix`).
+func leanVar(s string) string {
+	switch s {
+	case "prefix", "infix", "postfix", "end", "from", "at", "fun", "open", "section", "namespace", "instance", "deriving", "macro", "syntax":
+		return s + "_"
+	}
+	return s
+}
+
 func leanIdent(s string) string {
 	return strings.ReplaceAll(s, "-", "_")
 }
@@ -291,7 +301,7 @@ func (c *predCtx) expr(e ast.Expr) string {
 			return "none"
 		}
 		if e.Name == c.recv || c.locals[e.Name] {
-			return e.Name
+			return leanVar(e.Name)
 		}
 		if _, ok := c.p.consts[e.Name]; ok {
 			return c.spec.ConstNS + "." + e.Name
@@ -514,7 +524,7 @@ func (c *predCtx) stmts(list []ast.Stmt, indent string) string {
 					cond := c.expr(is.Cond)
 					res := c.expr(rs.Results[0])
 					delete(c.locals, v)
-					return indent + "if (" + c.expr(s.X) + ").any (fun " + v + " => " + cond + ") then " + res + "\n" + indent + "else\n" + c.stmts(rest, indent+"  ")
+					return indent + "if (" + c.expr(s.X) + ").any (fun " + leanVar(v) + " => " + cond + ") then " + res + "\n" + indent + "else\n" + c.stmts(rest, indent+"  ")
 				}
 			}
 		}
@@ -645,6 +655,9 @@ func genModule(repo string, spec *Spec, outDir string) {
 	for _, im := range spec.Imports {
 		cs.WriteString("import TunnoxModel.Gen." + im + "\n")
 	}
+	for _, im := range spec.LeanImports {
+		cs.WriteString("import " + im + "\n")
+	}
 	cs.WriteString("open Tunnox.PredPrelude\nnamespace Gen\n\n")
 	for _, c := range spec.Consts {
 		p := loadPkg(repo, c.Dir)
@@ -668,6 +681,7 @@ func genModule(repo string, spec *Spec, outDir string) {
 		}
 		fmt.Fprintf(&cs, "end %s\n\n", c.NS)
 	}
+	genExt(repo, spec.Module, &spec.ExtSpec, &cs)
 	for i := range spec.Preds {
 		genPred(repo, &spec.Preds[i], &cs)
 	}
